@@ -64,7 +64,9 @@ func isOption(s string, mode Mode, windows bool) ([]optionPair, bool) {
 	}
 	if len(match) > 0 {
 		// check long option
-		if match[1] == "--" || match[1] == "/" {
+		// A token that starts with a double dash is a long option in every mode,
+		// `--=x` matches the regex with a single dash and the name `-`.
+		if match[1] == "--" || match[1] == "/" || strings.HasPrefix(s, "--") {
 			opt := optionPair{}
 			opt.Option = match[2]
 			var args string
